@@ -50,6 +50,25 @@ type EmbedOuter struct {
 	Name string
 }
 
+// MethodStruct has a value-receiver and a pointer-receiver method: both are properties of a *MethodStruct,
+// only Upper is one of a MethodStruct value.
+type MethodStruct struct{ Title string }
+
+func (m MethodStruct) Upper() string { return strings.ToUpper(m.Title) }
+func (m *MethodStruct) Slug() string { return strings.ReplaceAll(strings.ToLower(m.Title), " ", "-") }
+
+// TaggedA and TaggedB rename fields with liquid tags, in ways that make a mix-up between the two types visible.
+type TaggedA struct {
+	Name  string `liquid:"label"`
+	Price int    `liquid:"cost"`
+	Sku   string
+}
+type TaggedB struct {
+	Email string `liquid:"label"`
+	Full  string `liquid:"cost"`
+	Sku   int
+}
+
 // LongString is the "very long string" of the universe (8 KiB).
 var LongString = strings.Repeat("long string é ", 630)
 
@@ -161,6 +180,7 @@ func Universe() []UVal {
 		{Name: "embednil", Go: EmbedOuter{Name: "outer"}, Small: true}, {Name: "embednilptr", Go: &EmbedOuter{}}, {Name: "embedset", Go: EmbedOuter{EmbedInner: &EmbedInner{Count: 4}}},
 		{Name: "mapslicekeys", Go: yaml.MapSlice{{Key: []int{3, 1, 2}, Value: "slicekey"}, {Key: map[string]any{"a": 1}, Value: 2}, {Key: "a", Value: 3}, {Key: []string{"b", "a"}, Value: 4}}, Small: true},
 		{Name: "uintptr", Go: uintptr(7)},
+		{Name: "methodval", Go: MethodStruct{Title: "Hello World"}}, {Name: "methodptr", Go: &MethodStruct{Title: "Hello World"}}, {Name: "taggeda", Go: TaggedA{"lamp", 5, "SKU-1"}}, {Name: "taggedb", Go: &TaggedB{"ada@example.org", "Ada", 7}},
 		{Name: "mu8key", Go: map[uint8]string{1: "a", 200: "b", 255: "c"}, Small: true}, {Name: "mu64key", Go: map[uint64]string{1: "one", 1 << 63: "mid", math.MaxUint64: "max", 5: "five"}},
 		{Name: "manyukey", Go: map[any]any{uint(3): "u3", uint8(2): "u2", -1: "m1", uint64(math.MaxUint64): "max", 1.5: "f"}}, {Name: "mnukey", Go: map[NUint]int{7: 1, 3: 2}},
 		{Name: "mi8key", Go: map[int8]int{-128: 1, 127: 2, 0: 3}}, {Name: "mboolkey", Go: map[bool]string{true: "t", false: "f"}}, {Name: "mfloatkey", Go: map[float64]string{1.5: "a", -0.5: "b", 1e300: "c"}},
